@@ -46,6 +46,7 @@ func runC11(c *Ctx) {
 		ruleClosedGuard(c, m)
 	}
 	ruleSurvive(c)
+	ruleKeysFirst(c, "KEYSFIRST")
 }
 
 // C11.SURVIVE
@@ -733,4 +734,89 @@ func ruleClosedGuard(c *Ctx, m *multiModel) {
 		}
 	}
 	c.Floor("HANDLECLOSE", "state changes in Close of "+H, nEff, 1)
+}
+
+// ruleKeysFirst (C11): a key list is filled before it is handed to a service. The new generation starts taking connections
+// of a retained address the moment its listener is served; a list that is filled afterwards is empty (or partial) for the
+// connections it takes in between, so clients whose key is in both configurations are refused during the reload.
+func ruleKeysFirst(c *Ctx, rule string) {
+	p := c.P
+	isUpdate := func(call *ssa.CallCommon) bool {
+		if call.IsInvoke() {
+			return call.Method.Name() == "Update" && eng.TypeName(call.Value.Type()) == "service.CipherList"
+		}
+		return false
+	}
+	derives := func(v ssa.Value, n ssa.Value) bool {
+		return p.AnyFrom(v, eng.OriginOpts{ThroughConvert: true}, func(x ssa.Value) bool { return x == n })
+	}
+	// fills(h, i, d): h applies Update to its i-th argument (directly or one helper further down)
+	var fills func(h *ssa.Function, i, d int) bool
+	fills = func(h *ssa.Function, i, d int) bool {
+		if h == nil || i >= len(h.Params) || d > 2 {
+			return false
+		}
+		for _, cl := range eng.Calls(h) {
+			cc := cl.Common()
+			if isUpdate(cc) && derives(cc.Value, h.Params[i]) {
+				return true
+			}
+			for j, a := range cc.Args {
+				if derives(a, h.Params[i]) && fills(cc.StaticCallee(), j, d+1) {
+					return true
+				}
+			}
+		}
+		return false
+	}
+	n := 0
+	for _, g := range p.Fns {
+		if !strings.HasPrefix(eng.PkgPathOf(g), eng.Mod+"/cmd/") || p.IsTestSupport(g) {
+			continue
+		}
+		for _, cl := range eng.Calls(g) {
+			nc, ok := cl.(*ssa.Call)
+			if !ok || eng.CalleeName(&nc.Call) != "service.NewCipherList" {
+				continue
+			}
+			// the uses of this list in g
+			var fill ssa.Instruction
+			var others []ssa.Instruction
+			for _, u := range eng.Calls(g) {
+				if u == cl {
+					continue
+				}
+				cc := u.Common()
+				if isUpdate(cc) && derives(cc.Value, nc) {
+					fill = u
+					continue
+				}
+				used := false
+				for j, a := range cc.Args {
+					if derives(a, nc) {
+						if fills(cc.StaticCallee(), j, 0) {
+							fill = u
+						} else {
+							used = true
+						}
+					}
+				}
+				if used && fill != u {
+					others = append(others, u)
+				}
+			}
+			if fill == nil {
+				continue // a list that is never filled here (returned empty to a caller that fills it) is that caller's business
+			}
+			n++
+			bad := ""
+			for _, o := range others {
+				if !eng.Dominates(fill, o) {
+					bad = p.IPos(o)
+				}
+			}
+			c.CheckAt(rule, short(g)+":key-list-filled-before-it-is-handed-on", nc, bad == "", fmt.Sprintf("the key list is handed on at %s before (or without) having been filled: the service it is given to can take connections with an empty or partial list", bad))
+		}
+	}
+	c.Floor(rule, "key lists created and filled in the server command", n, 1)
 }
